@@ -458,7 +458,7 @@ def _tagmarkup_recurse(tm, attr):
         ral = []
         for element in tm:
             tl, al = _tagmarkup_recurse(element, attr)
-            if ral:
+            if ral and al:
                 # merge attributes when possible
                 last_attr, last_run = ral[-1]
                 top_attr, top_run = al[0]
